@@ -365,7 +365,8 @@ class Ctx:
         if not cov["samples"]:
             cov["samples"] = [{"note": "no case recorded"}]
         os.makedirs(os.path.join(VERIF, "evidence"), exist_ok=True)
-        if not self.replay_path:
+        # evidence is only what the check observed on /repo itself (never a scratch copy or a replay)
+        if not self.replay_path and os.path.realpath(self.repo) == "/repo":
             with open(os.path.join(VERIF, "evidence", self.pid + ".json"), "w") as f:
                 json.dump(ev, f, indent=1)
         for k in self.known_hits:
